@@ -31,13 +31,20 @@ def judge(rec, price, ops):
 
 
 def classify(rec, price, ops, i, text):
-    # attribution: a divergence is a known finding only if a K1/K2 event was recorded BEFORE the diverging match
+    """A divergence from the ideal is attributed to a known finding only if the faithful model of the
+    code shows the SAME divergence at that match (same transactions as the implementation); the label
+    is the first K-event the model recorded.  Anything else is a new violation."""
     for o in rec["ops"]:
-        if o["i"] == i and o["M"] and "pre=" in o["M"]:
+        if o["i"] == i and o["M"] and "ideal=" in o["M"] and o["I"] not in ("panic", "timeout", "skipped"):
             dm = lvl.kv(o["M"].split(" || ")[0])
-            if dm.get("pre") == "0" and dm.get("taint", "-") != "-":
-                first = dm["taint"].split(",")[0]
-                return "%s time priority lost after a %s event" % (first, first)
+            di = lvl.kv(o["I"].split(" || ")[0])
+            if "txs" not in di or "txs" not in dm:
+                return None
+            if tx_core(di["txs"]) == tx_core(dm["txs"]) and di["filled"] == dm["filled"] and di["rem"] == dm["rem"]:
+                first = dm.get("taint", "-").split(",")[0]
+                if first == "-":
+                    first = "K1"
+                return "%s time priority lost after a %s event (reproduced by the model of the code)" % (first, first)
     return None
 
 
